@@ -87,8 +87,33 @@ def run(c, facts, tier):
             "labels from the argument outward: %s; required: keyword label %r directly inside category label %r" % (labels, a.lit, want_cat),
             witness="%s <bad argument>  → the message would name %r" % (a.lit, labels[0] if labels else None) if not ok else None,
         )
-        lastkept = max(i for i, x in enumerate(fr) if x["keep"])
-        cut_ok = all(x["cut"] for x in fr[: lastkept + 1])
+        # the keyword is recognised only as a whole word: before anything is committed (cut), a non-consuming guard must
+        # have seen a blank, a ')' or the end of input.  Otherwise `-names foo` is reported as a bad argument `s` of `-name`
+        # instead of the unknown word `-names`.
+        from . import c05 as _c05
+
+        bnd = peg.cs_union(peg.named_set("multispace"), peg.cs_in(")"))
+        g0 = fr[0] if fr else None
+        n0 = g0["n"] if g0 else None
+        while n0 is not None and n0["t"] in ("ctx",):
+            n0 = n0["p"]
+        if n0 is not None and n0["t"] == "ref":
+            n0 = g.open(n0)
+        whole = g0 is not None and not g0["cut"] and not g0["keep"] and n0["t"] == "peek" and _c05.requires_boundary(g, n0["p"], bnd)
+        c.ob(
+            "C18.keyword",
+            a.site,
+            a.lit,
+            whole,
+            ("after %r a look-ahead requires a blank, ')' or the end of input before the parser commits to this keyword" % a.lit)
+            if whole
+            else ("after %r the parser commits (cut_err) without having checked that the keyword ends there: a longer word such as %r is reported as an invalid argument %r of %r, not as the unknown word it is" % (a.lit, a.lit + "s", "s", a.lit)),
+            witness="%ss foo" % a.lit if not whole else None,
+            nontrivial=False,
+        )
+        fr_c = fr[1:] if whole else fr
+        lastkept = max(i for i, x in enumerate(fr_c) if x["keep"])
+        cut_ok = all(x["cut"] for x in fr_c[: lastkept + 1])
         c.ob("C18.cut", a.site, a.lit, cut_ok, "blank and argument after %r are under cut_err: the error keeps its labels instead of being reset by the enclosing alt" % a.lit if cut_ok else "argument of %r is not under cut_err: on a bad argument alt() backtracks, the labels are lost and the word is reported as an unknown token" % a.lit, nontrivial=False)
     c.floor("argument-taking keywords", narg, 40)
     # C18.position: a hard error inside an argument leaves the input at the start of the offending word
